@@ -69,6 +69,13 @@ namespace mustache {
             TargetType& self = *static_cast<TargetType*>(this);
             if constexpr (Info::has_for_each_array) {
                 invokeMethod(self, &T::forEachArray, world, count, invocation_index, pointers...);
+                if constexpr(Info::FunctionInfo::Position::job_invocation >= 0) {
+                    // the next array of this task starts `count` entities further (same as NonTemplateJob)
+                    invocation_index.entity_index_in_task = ParallelTaskItemIndexInTask::make(
+                            invocation_index.entity_index_in_task.toInt() + count.toInt());
+                    invocation_index.entity_index = ParallelTaskGlobalItemIndex::make(
+                            invocation_index.entity_index.toInt() + count.toInt());
+                }
             } else {
                 const auto size = count.toInt() / 4;
                 // TODO: find the way to make compiler unroll this loop
